@@ -959,7 +959,7 @@ def lean_field(f):
 def to_lean(table, customs, src_dir):
     L = []
     L.append("/-")
-    L.append("  GENERATED by /verif/scan/scan_serde.py from " + src_dir + " — DO NOT EDIT.")
+    L.append("  GENERATED by /verif/scan/scan_serde.py from <repo>/rust/altrios-core/src — DO NOT EDIT.")
     L.append("  Rewritten on every `./check C17` (cfg/C17.py PROP['pre']).  One entry per type that derives")
     L.append("  Serialize + Deserialize (plus the `<State>HistoryVec` structs synthesised by derive(HistoryVec)),")
     L.append("  fields in declaration order with the serde attributes that determine the structural codec.")
@@ -974,7 +974,7 @@ def to_lean(table, customs, src_dir):
         r = table[name]
         sep = "," if idx + 1 < len(names) else ""
         kind = {"struct": ".struct", "tuple": ".tuple", "unit": ".unitStruct", "enum": ".enum"}[r["kind"]]
-        L.append(f"  -- {r['file']}:{r['line']}" + (f"  (derive(HistoryVec) of {r['history_of']})" if r["history_of"] else ""))
+        L.append(f"  -- {r['file']}" + (f"  (derive(HistoryVec) of {r['history_of']})" if r["history_of"] else ""))
         L.append("  { name := " + lean_str(name) + ", kind := " + kind + ", params := [" +
                  ", ".join(lean_str(g) for g in r["generics"]) + "],")
         L.append("    fields := [")
@@ -986,6 +986,10 @@ def to_lean(table, customs, src_dir):
     L.append("")
     L.append("/-- types with a hand-written Serialize/Deserialize pair (leaves of the structural model) -/")
     L.append("def customCodecs : List String := [" + ", ".join(lean_str(c) for c in sorted(customs)) + "]")
+    L.append("")
+    L.append("/-- the scanner understood every serializable definition of the source -/")
+    L.append("def scanOk : Bool := true")
+    L.append("def scanError : String := \"\"")
     L.append("")
     L.append("end Altrios.Serde.Generated")
     return "\n".join(L) + "\n"
@@ -1000,26 +1004,58 @@ def summary(table):
             "skip_serializing_if": n_skipif, "skip": n_skip, "default": n_def, "rename": n_ren}
 
 
-def regen(root=ROOT, src_dir=SRC_DEFAULT, quiet=True):
-    """entry point for cfg/C17.py PROP['pre']"""
-    table, customs = scan(src_dir)
+def stub_lean(src_dir, msg):
+    """written when the scanner does not understand the source: `scanOk = false` makes
+    Proofs/C17.lean (theorem C17_scan_ok) fail to build, so the check reports a VIOLATION"""
+    L = ["/-", "  GENERATED by /verif/scan/scan_serde.py from <repo>/rust/altrios-core/src — DO NOT EDIT.",
+         "  THE SCANNER FAILED: " + msg.replace("-/", "- /"), "-/",
+         "import Altrios.Serde", "namespace Altrios.Serde.Generated", "open Altrios.Serde", "",
+         "def table : List RawDef := []", "def customCodecs : List String := []",
+         "def scanOk : Bool := false", "def scanError : String := " + lean_str(msg), "",
+         "end Altrios.Serde.Generated", ""]
+    return "\n".join(L)
+
+
+def default_src():
+    return os.path.join(os.environ.get("VERIF_REPO", "/repo"), "rust", "altrios-core", "src")
+
+
+def regen(root=ROOT, src_dir=None, quiet=True):
+    """entry point for cfg/C17.py PROP['pre']: rewrites lean/Generated/SerdeSchema.lean from the
+    working tree.  A scanner failure is not an exception: a stub table with `scanOk := false` is
+    written instead (the proofs then do not build and ./check reports it)."""
+    src_dir = src_dir or default_src()
     out = os.path.join(root, "lean", "Generated", "SerdeSchema.lean")
-    txt = to_lean(table, customs, src_dir)
     os.makedirs(os.path.dirname(out), exist_ok=True)
+    err = None
+    try:
+        table, customs = scan(src_dir)
+        txt = to_lean(table, customs, src_dir)
+    except ScanError as e:
+        err = str(e)
+        table, customs = {}, {}
+        txt = stub_lean(src_dir, err)
     if not os.path.exists(out) or open(out).read() != txt:
         with open(out, "w") as f:
             f.write(txt)
-    jp = os.path.join(root, "work", "serde_schema.json")
-    os.makedirs(os.path.dirname(jp), exist_ok=True)
-    json.dump({"summary": summary(table), "customs": sorted(customs), "types": table}, open(jp, "w"), indent=1)
-    if not quiet:
+    jp = os.path.join(os.environ.get("VERIF_WORK", os.path.join(root, "work")), "serde_schema.json")
+    try:
+        os.makedirs(os.path.dirname(jp), exist_ok=True)
+        json.dump({"summary": summary(table), "error": err, "customs": sorted(customs), "types": table}, open(jp, "w"), indent=1)
+    except OSError:
+        pass
+    if err:
+        print("scan_serde: FAILED: " + err)
+    elif not quiet:
         print("scan_serde:", json.dumps(summary(table)))
+    if err:
+        raise ScanError(err) if os.environ.get("SCAN_SERDE_STRICT") else None
     return table, customs
 
 
 def main():
     args = sys.argv[1:]
-    src = SRC_DEFAULT
+    src = default_src()
     show = False
     i = 0
     while i < len(args):
@@ -1029,11 +1065,10 @@ def main():
         elif args[i] == "--print":
             show = True
         i += 1
-    try:
-        table, customs = regen(ROOT, src, quiet=False)
-    except ScanError as e:
-        print("scan_serde: FAILED: " + str(e), file=sys.stderr)
+    r = regen(ROOT, src, quiet=False)
+    if r is None:
         sys.exit(2)
+    table, customs = r
     if show:
         for name in sorted(table):
             r = table[name]
